@@ -128,9 +128,23 @@ impl<T> AwaitDone for Result<T, AnyErr> { fn await_(self) -> (r: Self) { self } 
 
 // Load::updates(): the per-policy updates of this run (any number)
 pub struct Update;
-pub struct Updates { pub n: Ghost<nat> }
+//@item file=junos-agent/src/policies/mod.rs kind=struct name=Updates sub=/pub(crate) struct Updates<'a>=>pub struct Updates;inner: Vec<Update<'a>>=>pub inner: Vec<Update>/
 pub struct UpdIter { pub left: Ghost<nat> }
-impl Updates { #[verifier::external_body] pub fn updates(self) -> (r: UpdIter) ensures r.left@ == self.n@ { unimplemented!() } }
+pub trait IntoUpdIter { fn into_iter_(self) -> (r: UpdIter); }
+impl IntoUpdIter for Vec<Update> {
+    // Vec::into_iter (renamed by a logged substitution: the std method of the same name would be ambiguous): every element once
+    #[verifier::external_body]
+    fn into_iter_(self) -> (r: UpdIter) ensures r.left@ == self@.len() { unimplemented!() }
+}
+impl Updates {
+//@extract id=updates_updates file=junos-agent/src/policies/load.rs impl=/impl<'a> Load for Updates<'a>/ fn=updates rules=R1 vis=pub
+//@+ sub=/.into_iter()=>.into_iter_()/
+//@sig pub fn updates(self) -> (res: UpdIter)
+//@contract
+        // C01 / C04: every update that compare() computed is handed to load_config - none is filtered out on the way
+        ensures res.left@ == self.inner@.len(),                                               // OBL:C04+C01.updates.every_computed_update_is_loaded
+//@end
+}
 impl UpdIter {
     pub fn into_iter_(self) -> (r: UpdIter) ensures r == self { self }
     #[verifier::external_body]
